@@ -121,6 +121,8 @@ func (rpSuite) Run(h map[string]string, ops []string) []string {
 	}
 	rp := faststats.NewRollingPercentile(time.Duration(w), n, size, origin)
 	held := rp.Var() // obtained ONCE, evaluated later (the expvar.Publish usage pattern)
+	var prevSnap faststats.SortedDurations
+	var prevText string
 	out := make([]string, len(ops))
 	for i, op := range ops {
 		out[i] = func() (res string) {
@@ -140,6 +142,18 @@ func (rpSuite) Run(h map[string]string, ops []string) []string {
 				for i, d := range s {
 					l[i] = int64(d)
 				}
+				// a snapshot is a VALUE: the one returned before must still read as it did when it was returned,
+				// whatever has been added, reset or snapshotted since
+				if prevSnap != nil {
+					pl := make([]int64, len(prevSnap))
+					for i, d := range prevSnap {
+						pl[i] = int64(d)
+					}
+					if now := fmtInts(pl); now != prevText {
+						return "earlier-snapshot-changed:was=" + prevText + ",reads=" + now
+					}
+				}
+				prevSnap, prevText = s, fmtInts(l)
 				return fmtInts(l)
 			case "reset":
 				rp.Reset(timeAt(origin, atoi(f[1])))
